@@ -5,6 +5,7 @@ import flowpaths.nodeexpandeddigraph as nedg
 import networkx as nx
 from copy import deepcopy
 import time
+import math
 import numbers
 
 class MinErrorFlow():
@@ -192,8 +193,15 @@ class MinErrorFlow():
                 for (u, v) in self.G.edges() 
             ]
         )
-        # (in Python arithmetic: the product of a fixed-width numpy scalar wraps around, np.uint8(60) * 5 = 44)
-        self.ub = float(self.w_max) * self.G.number_of_edges()
+        # (in Python arithmetic: the product of a fixed-width numpy scalar wraps around, np.uint8(60) * 5 = 44;
+        # rounded up for integer weights: the integer above a value such as 0.6 must be admissible)
+        self.ub = (math.ceil(self.w_max) if self.weight_type == int else float(self.w_max)) * self.G.number_of_edges()
+        # The error |weight - corrected value| is an integer only if the weights are (for weight 2.1 corrected to 2 it is 0.1)
+        self._integral_weights = all(
+            float(data[self.flow_attr]).is_integer()
+            for u, v, data in self.G.edges(data=True)
+            if self.flow_attr in data and (u, v) not in self.edges_to_ignore
+        )
 
         self._create_solver()
 
@@ -223,7 +231,7 @@ class MinErrorFlow():
             name_prefix="edge_error_vars", 
             lb=0, 
             ub=self.ub, 
-            var_type="integer" if self.weight_type == int else "continuous",
+            var_type="integer" if self.weight_type == int and self._integral_weights else "continuous",
         )
 
         # Adding flow conservation constraints
